@@ -137,8 +137,24 @@ pub fn run(ctx: &'static Ctx) {
         let rel = if b.starts_with(a) || a.starts_with(b) { "one-name-prefix-of-the-other" } else if a.eq_ignore_ascii_case(b) { "case-variants" } else { "unrelated" };
         crate::tdcheck::check_json(ctx, P, "type-names-in-sorted-order", i, &format!("names:{rel}{}", if dollar { ",dollar" } else { "" }), &d.to_json().reordered(i % 3).to_text(), (class, why));
     });
+    // struct types WITHOUT members (Solidity has none, EIP-712's grammar allows them, so acceptance is unconstrained): two or
+    // three distinct ones in one document - anything that identifies a type by where its (empty) member list lives, or by its
+    // member list at all, takes them for one type
+    let empties = ["Ping", "Pong", "Pang"]; let shapes = ["member", "array-of-one", "array-of-two", "inside-a-struct"];
+    ctx.sweep("member-less-struct-types", "a primary type with two or three members whose types are every ordered selection of three distinct member-less struct types (and the same one twice), each as a direct member, an array of one / two, or inside another struct: the standard's digests if accepted", (3 * 3 * 3 * shapes.len() * shapes.len()) as u64, |i| {
+        let mut x = i as usize; let mut take = |k: usize| { let r = x % k; x /= k; r };
+        let (a, b, c) = (empties[take(3)], empties[take(3)], empties[take(3)]); let (sa, sb) = (shapes[take(shapes.len())], shapes[take(shapes.len())]);
+        let member = |t: &str, sh: &str| -> (String, J) { match sh { "member" => (t.to_string(), J::obj(vec![])), "array-of-one" => (format!("{t}[]"), J::Arr(vec![J::obj(vec![])])), "array-of-two" => (format!("{t}[2]"), J::Arr(vec![J::obj(vec![]), J::obj(vec![])])), _ => (format!("Box{t}"), J::obj(vec![("inner", J::obj(vec![])), ("n", J::n("1"))])) } };
+        let (ta, va) = member(a, sa); let (tb, vb) = member(b, sb); let (tc, vc) = member(c, "member");
+        let mut types: Vec<(String, Vec<(String, String)>)> = vec![("Top".into(), sv(&[("first", &ta), ("second", &tb), ("third", &tc), ("n", "uint256")]))];
+        for e in empties { types.push((e.to_string(), vec![])); types.push((format!("Box{e}"), sv(&[("inner", e), ("n", "uint256")]))); }
+        let d = simple_doc(types, "Top", J::obj(vec![("first", va), ("second", vb), ("third", vc), ("n", J::n("9"))]));
+        let (class, why) = refmodel::eip712::evaluate(&d); let class = match class { refmodel::json::Class::Accept(x) => refmodel::json::Class::Unc(x), cl => cl };
+        crate::tdcheck::check_json(ctx, P, "member-less-struct-types", i, &format!("empty-structs:distinct={},{sa},{sb}", { let mut v = vec![a, b, c]; v.sort(); v.dedup(); v.len() }), &d.to_json().reordered(i % 3).to_text(), (class, why));
+    });
     crate::hist::histories(ctx, P, "document-histories", "TypedData from JSON and its three digests, a sequence on one fresh thread", crate::hist::td_ops());
     crate::tdcheck::value_pairs(ctx, P, "value-pairs");
     crate::hist::long_runs(ctx, P, "document-long-runs", "TypedData from JSON and its digests, a long run on one fresh thread", if ctx.quick() { 40 } else { 300 }, crate::hist::c08_nth());
-    { let l = crate::hist::size_ladder(ctx.thorough()); let l: Vec<usize> = l.into_iter().filter(|n| ctx.thorough() || *n <= (1 << 20) + 100).collect(); crate::hist::size_runs(ctx, P, "document-size-runs", "TypedData from JSON and its digests: string / bytes values of sizes across orders of magnitude on one fresh thread", &l, crate::hist::c08_sized(ctx.seed)); }
+    crate::hist::under_entropy_answers(ctx, P, "documents-under-entropy-answers", "TypedData digests with the entropy source scripted", crate::hist::td_ops());
+    { let l = crate::hist::size_ladder(ctx.thorough()); let l: Vec<usize> = l.into_iter().filter(|n| *n <= if ctx.thorough() { (1 << 22) + 1 } else { (1 << 20) + 100 }).collect(); crate::hist::size_runs(ctx, P, "document-size-runs", "TypedData from JSON and its digests: string / bytes values of sizes across orders of magnitude on one fresh thread", &l, crate::hist::c08_sized(ctx.seed)); }
 }
